@@ -395,6 +395,17 @@ def r10k(F):
 	out.append(Result('10.k', ok, ('ok:' if ok else 'threshold:') + 'closed-monitor-tracking-threshold', 'a closed channel gets a closed_channel_monitor_update_ids entry iff its monitor saw an update beyond the closing one (update id >= 2): start-up uses %s, run-time close uses %s%s' % (sorted(a1), sorted(b1), '' if ok else ' - with different thresholds a monitor at exactly that id has no entry (and possibly no peer state) after a restart, and handling its payment resolution panics'), len(a) + len(b), where=F.where(CM + 'from_channel_manager_data')))
 	return out
 
+def r10l(F):
+	"""the Fulfilled marker of an outbound payment outlives its HTLCs: it is what keeps the restart logic from rebuilding the payment from the
+	monitor as retryable (same structural rule as 03.f: idle ticks are counted only while session_privs is empty)"""
+	import C03
+	out = [r for r in C03.r03f(F) if 'idle-ticks' in r.key]
+	for r in out:
+		r.rule = '10.l'
+	if not out:
+		out.append(Result('10.l', False, 'anchor:idle-ticks', 'the idle-tick rule of remove_stale_payments was not found'))
+	return out
+
 RULES = [
 	('10.a', 'resume only when the manager is not behind the monitor (else force-close + regenerated update); monitor behind manager => DangerousValue', r10a),
 	('10.b', 'the Watch is driven only after background events ran; the flag is stored only by process_background_events', r10b),
@@ -404,5 +415,6 @@ RULES = [
 	('10.i', 'event completion actions are queued only after the handler returned Ok (sync and async event loops)', r10i),
 	('10.j', 'every holder-commitment monitor update variant carries the claimed outbound HTLCs (sibling arms agree)', r10j),
 	('10.k', 'deserialization: legacy in-flight map only when the new one is absent; closed-monitor tracking threshold equals the run-time one', r10k),
+	('10.l', 'a fulfilled payment is forgotten only once none of its HTLCs is outstanding (it guards the restart rebuild)', r10l),
 	('10.d', 'startup-only helpers are reachable only from the restart routine; reconstruction calls exist', r10d),
 ]
